@@ -6,6 +6,7 @@ CONSTANTS
   CliIds = {1}
   SrvIds = {1}
   TrackObs = TRUE
+  TrackDeps = FALSE
   Dev = "none"
   SetupPlan <- Bind_SetupPlan
   RegPlan <- Bind_RegPlan
@@ -26,6 +27,7 @@ CONSTANTS
   MutPlan <- Bind_MutPlan
   Splice = FALSE
   Reloads = FALSE
+  ExtFail = FALSE
   MaxFree = 3
 INVARIANT Agreement
 INVARIANT ClientAcceptsOnlyMatched
